@@ -174,6 +174,10 @@ type AnalyzedFnParam struct {
 }
 
 func (self AnalyzedFnParam) String() string {
+	if self.IsSingletonExtractor {
+		// Print the extraction, not the resolved type: callers do not pass this argument.
+		return fmt.Sprintf("%s: %s", self.Ident, self.SingletonIdent)
+	}
 	return fmt.Sprintf("%s: %s", self.Ident, self.Type)
 }
 
